@@ -17,6 +17,7 @@ MODEL_MODULES = ['TenpyModel.Util.J', 'TenpyModel.C19.Order', 'TenpyModel.C19.La
                  'TenpyModel.C19.Variants']
 PROPS_MODULES = ['TenpyModel.C19.PropsOrder', 'TenpyModel.C19.PropsIndex', 'TenpyModel.C19.PropsCouplings',
                  'TenpyModel.C19.PropsMulti', 'TenpyModel.C19.PropsVariants', 'TenpyModel.C19.PropsPairs', 'TenpyModel.C19.PropsPairsOutside']
+PROPS_MODULES = PROPS_MODULES + ['TenpyModel.C19.Props2']   # second round of theorems (Props2.lean + P2_*.lean)
 LEAN_MODULES = PROPS_MODULES
 LEVEL = 'proof'
 BUDGET = {'quick': 170, 'thorough': 1700}
